@@ -29,4 +29,182 @@ mod verif_kani_trivia {
         kani::cover!(NON_EOL.contains_token(b));
         kani::cover!(!NON_EOL.contains_token(b));
     }
+
+    // ------------------------------------------------------------------ K9: whitespace / newline runs
+    // ws, newline, ws_newline, ws_newlines in situ on every N-byte input: the number of bytes taken
+    // is the longest run of the ABNF (`ws = *wschar`, `newline = LF / CRLF`,
+    // `ws-newline = *( wschar / newline )`, `ws-newlines = newline ws-newline`).
+    // Bounded: input length N (the run can be arbitrarily long).
+    fn stub_format(_args: core::fmt::Arguments<'_>) -> String {
+        String::new()
+    }
+
+    fn o_nl_len(b: &[u8], i: usize) -> usize {
+        if i < b.len() && b[i] == b'\n' {
+            1
+        } else if i + 1 < b.len() && b[i] == b'\r' && b[i + 1] == b'\n' {
+            2
+        } else {
+            0
+        }
+    }
+
+    fn o_ws_len(b: &[u8], from: usize) -> usize {
+        let mut i = from;
+        while i < b.len() && o_class::wschar(b[i]) {
+            i += 1;
+        }
+        i - from
+    }
+
+    fn o_ws_newline_len(b: &[u8], from: usize) -> usize {
+        let mut i = from;
+        while i < b.len() {
+            if o_class::wschar(b[i]) {
+                i += 1;
+            } else {
+                let n = o_nl_len(b, i);
+                if n == 0 {
+                    break;
+                }
+                i += n;
+            }
+        }
+        i - from
+    }
+
+    fn k9_input<const K9_N: usize>(buf: &[u8; K9_N]) -> Option<Input<'_>> {
+        match core::str::from_utf8(buf) {
+            Ok(s) => Some(new_input(s)),
+            Err(_) => None,
+        }
+    }
+
+    fn k9_ws_n<const K9_N: usize>() {
+        let buf: [u8; K9_N] = kani::any();
+        let mut input = match k9_input(&buf) {
+            Some(i) => i,
+            None => return,
+        };
+        let r = ws(&mut input);
+        let want = o_ws_len(&buf, 0);
+        match &r {
+            Ok(s) => {
+                assert!(s.len() == want, "ws returned a run of the wrong length");
+                assert!(K9_N - input.eof_offset() == want, "ws consumed the wrong number of bytes");
+            }
+            Err(_) => assert!(false, "ws = *wschar cannot fail"),
+        }
+        kani::cover!(want == 0);
+        kani::cover!(want == K9_N);
+        kani::cover!(want == 1 && buf[0] == b'\t');
+        core::mem::forget(r);
+    }
+
+    fn k9_newline_n<const K9_N: usize>() {
+        let buf: [u8; K9_N] = kani::any();
+        let mut input = match k9_input(&buf) {
+            Some(i) => i,
+            None => return,
+        };
+        let r = newline(&mut input);
+        let want = o_nl_len(&buf, 0);
+        match &r {
+            Ok(()) => {
+                assert!(want > 0, "newline accepts something that is neither LF nor CR LF");
+                assert!(K9_N - input.eof_offset() == want, "newline consumed the wrong number of bytes");
+            }
+            Err(_) => assert!(want == 0, "newline rejects LF or CR LF"),
+        }
+        kani::cover!(want == 1);
+        kani::cover!(want == 2);
+        kani::cover!(want == 0 && buf[0] == b'\r');
+        core::mem::forget(r);
+    }
+
+    fn k9_ws_newline_n<const K9_N: usize>() {
+        let buf: [u8; K9_N] = kani::any();
+        let mut input = match k9_input(&buf) {
+            Some(i) => i,
+            None => return,
+        };
+        let r = ws_newline(&mut input);
+        let want = o_ws_newline_len(&buf, 0);
+        match &r {
+            Ok(()) => assert!(
+                K9_N - input.eof_offset() == want,
+                "ws_newline did not take exactly the longest run of wschar / newline"
+            ),
+            Err(_) => assert!(false, "ws-newline = *( wschar / newline ) cannot fail"),
+        }
+        kani::cover!(want == 0);
+        kani::cover!(want == K9_N);
+        kani::cover!(want == 2 && buf[0] == b'\t' && buf[1] == b'\n');
+        kani::cover!(want == 1 && buf[1] == b'\r');
+        core::mem::forget(r);
+    }
+
+    fn k9_ws_newlines_n<const K9_N: usize>() {
+        let buf: [u8; K9_N] = kani::any();
+        let mut input = match k9_input(&buf) {
+            Some(i) => i,
+            None => return,
+        };
+        let r = ws_newlines(&mut input);
+        let nl = o_nl_len(&buf, 0);
+        match &r {
+            Ok(()) => {
+                assert!(nl > 0, "ws_newlines accepts text that does not start with a newline");
+                assert!(
+                    K9_N - input.eof_offset() == nl + o_ws_newline_len(&buf, nl),
+                    "ws_newlines did not take newline + the longest run of wschar / newline"
+                );
+            }
+            Err(_) => assert!(nl == 0, "ws_newlines rejects text that starts with a newline"),
+        }
+        kani::cover!(nl == 0);
+        kani::cover!(nl == 1 && o_ws_newline_len(&buf, 1) == K9_N - 1);
+        kani::cover!(nl == 2);
+        core::mem::forget(r);
+    }
+
+    #[kani::proof]
+    #[kani::unwind(8)]
+    #[kani::stub(alloc::fmt::format, stub_format)]
+    fn k9_ws_n2() { k9_ws_n::<2>(); }
+
+    #[kani::proof]
+    #[kani::unwind(8)]
+    #[kani::stub(alloc::fmt::format, stub_format)]
+    fn k9_ws_n3() { k9_ws_n::<3>(); }
+
+    #[kani::proof]
+    #[kani::unwind(8)]
+    #[kani::stub(alloc::fmt::format, stub_format)]
+    fn k9_newline_n2() { k9_newline_n::<2>(); }
+
+    #[kani::proof]
+    #[kani::unwind(8)]
+    #[kani::stub(alloc::fmt::format, stub_format)]
+    fn k9_newline_n3() { k9_newline_n::<3>(); }
+
+    #[kani::proof]
+    #[kani::unwind(8)]
+    #[kani::stub(alloc::fmt::format, stub_format)]
+    fn k9_ws_newline_n2() { k9_ws_newline_n::<2>(); }
+
+    #[kani::proof]
+    #[kani::unwind(8)]
+    #[kani::stub(alloc::fmt::format, stub_format)]
+    fn k9_ws_newline_n3() { k9_ws_newline_n::<3>(); }
+
+    #[kani::proof]
+    #[kani::unwind(8)]
+    #[kani::stub(alloc::fmt::format, stub_format)]
+    fn k9_ws_newlines_n2() { k9_ws_newlines_n::<2>(); }
+
+    #[kani::proof]
+    #[kani::unwind(8)]
+    #[kani::stub(alloc::fmt::format, stub_format)]
+    fn k9_ws_newlines_n3() { k9_ws_newlines_n::<3>(); }
 }
